@@ -153,7 +153,7 @@ def parse_trace(path):
     return decisions, events
 
 
-def run_rq(root, args, threads=1, sched=None, trace=None, preload_env=None, cwd=None, timeout=HORIZON, use_d=True, mem_limit=None, threads_env=False, _retry=False, as_nobody=False, fsize_limit=None):
+def run_rq(root, args, threads=1, sched=None, trace=None, preload_env=None, cwd=None, timeout=HORIZON, use_d=True, mem_limit=None, threads_env=False, _retry=False, as_nobody=False, fsize_limit=None, cpu_limit=None):
     """Run `rapidquilt push <args>` on workspace `root`.
     threads>1: under the scheduler; sched = list of worker ids (schedule script), None/[] = serial default.
     trace: path of a trace file to (re)create; preload_env: extra env for the LD_PRELOAD shim."""
@@ -176,18 +176,22 @@ def run_rq(root, args, threads=1, sched=None, trace=None, preload_env=None, cwd=
         # without -d the workspace is the current directory
         cwd = os.path.dirname(os.path.abspath(root)) if use_d else root
     pre = None
-    if mem_limit or fsize_limit:
+    if mem_limit or fsize_limit or cpu_limit:
         import resource
 
         def pre():
             if mem_limit:
                 resource.setrlimit(resource.RLIMIT_AS, (mem_limit, mem_limit))
+            if cpu_limit:     # seconds of processor time: unlike the wall-clock horizon this does not depend on how busy the machine is
+                resource.setrlimit(resource.RLIMIT_CPU, (cpu_limit, cpu_limit + 5))
             if fsize_limit:   # `ulimit -f`: a write beyond it raises SIGXFSZ - or fails with EFBIG for a process that does not die of that
                 resource.setrlimit(resource.RLIMIT_FSIZE, (fsize_limit, fsize_limit))
     env['RQ_VERIF_STALL_SECS'] = '30'
     try:
         p = subprocess.run(cmd, env=env, stdout=subprocess.PIPE, stderr=subprocess.PIPE, timeout=timeout, cwd=cwd, preexec_fn=pre)
         o = Outcome(p.returncode, classify(p.returncode), p.stdout, p.stderr)
+        if cpu_limit and p.returncode in (-24, -9):   # SIGXCPU (or the hard limit's SIGKILL): used up its processor time
+            o.cls = 'hang'
     except subprocess.TimeoutExpired as e:
         o = Outcome(None, 'hang', e.stdout or b'', e.stderr or b'')
     if o.cls == 'machinery:4' and not _retry:
